@@ -109,10 +109,22 @@ def L_has(ty, t, x, upto=None):
     return z3.Exists([j], z3.And(j >= 0, j < n, L_get(ty, t, j) == x))
 
 
+def default_of(sort):
+    """a fixed (unspecified) element used to pad list literals, so that equal literals are equal terms"""
+    return z3.Const('dflt!' + sort.name().replace(' ', '_'), sort)
+
+
 def L_empty(ty):
     s = sort_of(ty)
-    return s.mk(z3.IntVal(0), z3.Const(fresh_name('emptyarr'),
-                                       z3.ArraySort(z3.IntSort(), sort_of(ty.elem))))
+    return s.mk(z3.IntVal(0), z3.K(z3.IntSort(), default_of(sort_of(ty.elem))))
+
+
+def L_lit(ty, terms):
+    """the list literal [terms...] as a canonical term"""
+    arr = L_arr(ty, L_empty(ty))
+    for i, x in enumerate(terms):
+        arr = z3.Store(arr, i, x)
+    return L_mk(ty, z3.IntVal(len(terms)), arr)
 
 
 def D_dom(ty, t):
